@@ -344,9 +344,25 @@ func genTapCb(r *Rng, n int, w *bufio.Writer) {
 			} else {
 				copy(bs[1:33], r.Bytes(32))
 			}
-		case 7: // size limits
-			k := r.Pick(127, 128, 129)
-			bs = append(bs[:33], r.Bytes(32*k)...)
+		case 7: // depth limits: a GENUINE block of 128 (the maximum), 127, 1, 0 nodes; 129 must not parse
+			k := []int{128, 127, 129, 1, 0, 128}[(i/12)%6]
+			if r.Chance(15) {
+				k = r.Pick(126, 127, 128, 129, 130)
+			}
+			bs = append(bs[:33:33], r.Bytes(32*k)...)
+			if parsed, err := taproot.ParseControlBlock(bs); err == nil {
+				// the leaf sits below k arbitrary sibling hashes: commit to that root
+				rt := parsed.RootHash(script)
+				qq := taproot.ComputeTaprootOutputKey(key, rt)
+				prog = schnorr.SerializePubKey(qq)
+				bs[0] &= 0xfe
+				if tapIsOdd(qq) {
+					bs[0] |= 1
+				}
+				if r.Chance(10) {
+					bs[0] ^= 1 // wrong parity at depth
+				}
+			}
 		case 8: // other script or other program
 			if r.Bool() {
 				script = append(append([]byte{}, script...), byte(r.Intn(256)))
